@@ -13,3 +13,4 @@ import AkVerif.Props.C04
 import AkVerif.Props.C05
 import AkVerif.Props.C01
 import AkVerif.Props.C02
+import AkVerif.Props.C09
